@@ -21,7 +21,9 @@ PY = "/venv/bin/python"
 RUN_WALL_CAP = 120
 
 PROFILE_MODULES = {
+    "C01": "dsim.profiles.valuesp",
     "C03": "dsim.profiles.grid",
+    "C11": "dsim.profiles.addressing",
     "C19": "dsim.profiles.names",
 }
 
@@ -35,7 +37,7 @@ def run_seed_for(base: int, prop: str, idx: int) -> int:
     return int.from_bytes(h[:6], "big")
 
 
-def run_one(prop: str, run_seed: int, tier: str, ops=None, cfg=None, want_log=False, keep_ops=False) -> dict:
+def run_one(prop: str, run_seed: int, tier: str, ops=None, cfg=None, want_log=False, keep_ops=False, idx=None) -> dict:
     """Execute one simulated run. Pure function of (prop, run_seed, tier) or of (run_seed, cfg, ops)."""
     from dsim.sim import Sim, Violation
     from dsim.world import HarnessError, World
@@ -44,7 +46,7 @@ def run_one(prop: str, run_seed: int, tier: str, ops=None, cfg=None, want_log=Fa
     t0 = time.time()
     generated = ops is None
     if generated:
-        cfg, ops = prof.gen(run_seed, tier)
+        cfg, ops = prof.gen(run_seed, tier, idx)
     faulthandler.dump_traceback_later(RUN_WALL_CAP, exit=True)
     world = World(run_seed)
     res = {"seed": run_seed, "prop": prop, "nops": len(ops), "violation": None, "error": None}
@@ -88,7 +90,7 @@ def run_one(prop: str, run_seed: int, tier: str, ops=None, cfg=None, want_log=Fa
 def _worker_chunk(prop, base_seed, tier, idxs):
     out = []
     for i in idxs:
-        r = run_one(prop, run_seed_for(base_seed, prop, i), tier, keep_ops=(i < 3))
+        r = run_one(prop, run_seed_for(base_seed, prop, i), tier, keep_ops=(i < 3), idx=i)
         r["idx"] = i
         out.append(r)
     return out
@@ -503,6 +505,33 @@ def replay_known(prop: str, f: dict) -> bool:
     return bool(v) and v["check_id"] == f["check_id"] and v["key"] == key
 
 
+def _digest_chunk(prop, base_seed, tier, idxs):
+    out = {}
+    for i in idxs:
+        r = run_one(prop, run_seed_for(base_seed, prop, i), tier, idx=i)
+        v = r.get("violation")
+        out[i] = [r.get("digest"), (v or {}).get("check_id"), bool(r.get("error"))]
+    return out
+
+
+def digests_mode(prop, args) -> int:
+    parts = args.digests.split(":")
+    idxs = list(range(int(parts[0]), int(parts[1])))
+    if len(parts) > 2 and parts[2] == "reverse":
+        idxs.reverse()
+    import numbers_parser  # noqa: F401
+
+    workers = args.workers or 16
+    out = {}
+    with ProcessPoolExecutor(max_workers=workers, mp_context=get_context("fork")) as pool:
+        per = max(1, len(idxs) // (workers * 2) or 1)
+        futs = [pool.submit(_digest_chunk, prop, args.seed, args.tier, idxs[k : k + per]) for k in range(0, len(idxs), per)]
+        for f in futs:
+            out.update(f.result())
+    print("DIGESTS " + json.dumps({str(k): v for k, v in sorted(out.items())}))
+    return 0
+
+
 def main(argv=None) -> int:
     import argparse
 
@@ -516,6 +545,7 @@ def main(argv=None) -> int:
     ap.add_argument("--runs", type=int)
     ap.add_argument("--workers", type=int)
     ap.add_argument("--one", type=int, help="run a single run index verbosely")
+    ap.add_argument("--digests", help="START:END[:reverse] print the event-log digest of each run index (determinism self-test)")
     args = ap.parse_args(argv)
     prop = args.property
     if args.tier not in TIERS:
@@ -538,11 +568,17 @@ def main(argv=None) -> int:
             else:
                 print("replay did not violate")
         return 1 if v else 0
+    if prop == "selftest":
+        from dsim.selftest import main as st_main
+
+        return st_main(args)
+    if args.digests:
+        return digests_mode(prop, args)
     if args.one is not None:
         seed = run_seed_for(args.seed, prop, args.one)
         import numbers_parser  # noqa: F401
 
-        r = run_one(prop, seed, args.tier, want_log=True, keep_ops=True)
+        r = run_one(prop, seed, args.tier, want_log=True, keep_ops=True, idx=args.one)
         print(json.dumps({k: v for k, v in r.items() if k not in ("cfg",)}, indent=1, default=str)[:20000])
         return 1 if r.get("violation") else (2 if r.get("error") else 0)
     return batch(prop, args.tier, args.seed, args.budget, args.runs, args.workers)
